@@ -133,6 +133,10 @@ def cross_nested_structure(draw, alts, degenerate=False):
             alphas.append([a, draw(param_or_number(v, f'ALPHA_{i}_{a}', allow_beta=draw(st.booleans())))])
             if alphas[-1][1][0] == 'Beta':
                 alphas[-1][1][3] = None  # no bound on allocation parameters
+                if alphas[-1][1][5] == 0 and draw(st.floats(0, 1)) < 0.4:
+                    # a free allocation parameter that STARTS at zero and is evaluated elsewhere
+                    # (the value used for evaluation travels in case['betas'])
+                    alphas[-1][1] = ['Beta', alphas[-1][1][1], 0.0, None, None, 0, v]
         nests.append([draw(param_or_number(draw(mu_values()), f'MU_{i}')), alphas])
     return nests
 
@@ -143,7 +147,12 @@ def cross_nested_structure(draw, alts, degenerate=False):
 
 def _val(spec):
     """Python object for a parameter-like spec."""
-    return build.Builder([]).build(spec)
+    return build.Builder([]).build(spec[:6] if spec[0] == 'Beta' else spec)
+
+
+def _nest_name(case, i):
+    mode = case.get('nest_names', 'indexed')
+    return {'indexed': f'n{i}', 'none': None, 'same': 'nest'}[mode]
 
 
 def build_nests(case, kind, tuple_syntax=False):
@@ -156,7 +165,7 @@ def build_nests(case, kind, tuple_syntax=False):
         return bn.NestsForNestedLogit(
             choice_set=list(alts),
             tuple_of_nests=tuple(bn.OneNestForNestedLogit(nest_param=_val(mu), list_of_alternatives=list(g),
-                                                          name=f'n{i}')
+                                                          name=_nest_name(case, i))
                                  for i, (mu, g) in enumerate(case['nests'])))
     if tuple_syntax:
         return tuple((_val(mu), {a: _val(al) for a, al in alphas}) for mu, alphas in case['nests'])
@@ -164,7 +173,7 @@ def build_nests(case, kind, tuple_syntax=False):
         choice_set=list(alts),
         tuple_of_nests=tuple(bn.OneNestForCrossNestedLogit(nest_param=_val(mu),
                                                            dict_of_alpha={a: _val(al) for a, al in alphas},
-                                                           name=f'n{i}')
+                                                           name=_nest_name(case, i))
                              for i, (mu, alphas) in enumerate(case['nests'])))
 
 
@@ -235,10 +244,23 @@ def row_availability(case, row):
 
 
 def _pv(spec, betas=None):
-    """Numeric value of a parameter-like spec."""
+    """Numeric value of a parameter-like spec (a 7th element of a Beta spec is the value at which it
+    is evaluated, supplied to the library through a betas dictionary)."""
     if spec[0] == 'Beta':
+        if len(spec) > 6:
+            return float(spec[6])
         return float((betas or {}).get(spec[1], spec[2]))
     return float(spec[1])
+
+
+def evaluation_betas(case):
+    """Dictionary of parameter values to pass to get_value_c for parameters evaluated away from their initial value."""
+    out = {}
+    for _, members in (case.get('nests') or []):
+        for m in members:
+            if isinstance(m, list) and isinstance(m[1], list) and m[1][0] == 'Beta' and len(m[1]) > 6:
+                out[m[1][1]] = m[1][6]
+    return out or None
 
 
 def reference_probabilities(case, model, row, betas=None, shift=0.0):
